@@ -109,7 +109,8 @@ func scenario(c cfg, pb int) *explore.Scenario {
 		// point, then explore the race between the in-flight message, Close and late calls
 		x.Settle()
 		vrt.Go("sender", func() {
-			err := peer.Tell(sendCtx, 0, p2p.IOVec{[]byte("hello-close")})
+			// more than one fragment where the stack fragments (inner MTUs 40 / 64)
+			err := peer.Tell(sendCtx, 0, p2p.IOVec{[]byte("hello-close-" + strings.Repeat("x", 58))})
 			l.add(ev{Kind: "tell-ret", Who: "sender", Err: errs(err)})
 		})
 		vrt.Go("closer", func() {
